@@ -248,6 +248,19 @@ Section Proofs.
     rewrite E1, E2, E3, E4. reflexivity.
   Qed.
 
+  (* a new context needs no assumption on tokens: nothing is cached yet *)
+  Lemma update_ctx0_view p : view_of (update (ctx0 CC PC JC) p) = fresh_view p.
+  Proof.
+    unfold Checker.update, upd_provider, upd_create, upd_pl, upd_jr, fresh_view, fresh_pl, fresh_create, fresh_jr,
+      Checker.view_of. simpl.
+    destruct (load_create (option_map snd (p_find p key_create))) as [cc|]; simpl.
+    - destruct (p_find p key_create) as [[t ce]|]; simpl;
+        match goal with |- context [load_pl ?a ?b] => destruct (load_pl a b) end; simpl;
+        destruct (load_jr (option_map snd (p_find p key_join_rules))); reflexivity.
+    - match goal with |- context [load_pl ?a ?b] => destruct (load_pl a b) end; simpl;
+        destruct (load_jr (option_map snd (p_find p key_join_rules))); reflexivity.
+  Qed.
+
   Corollary update_reuse_is_fresh c p :
     inv c -> p_wf p -> view_of (update c p) = view_of (update (ctx0 CC PC JC) p).
   Proof.
